@@ -428,6 +428,12 @@ func c06Loopback(c *Ctx) {
 					cfg.Bind = fmt.Sprintf("127.0.0.2:%d", fixedPort)
 					c.Res.Count("loopback:cases-with-bind-port-equal-to-broadcast-port", 1)
 				}
+				if bindKind == "fixed" && i%4 == 3 {
+					// round 11: the listen address has the same port number as the fixed bind port (seeded C06-X: the constructor then
+					// quietly binds requests to port 0 'to avoid a clash with the event listener')
+					cfg.Listen = fmt.Sprintf("0.0.0.0:%d", fixedPort)
+					c.Res.Count("loopback:cases-with-listen-port-equal-to-bind-port", 1)
+				}
 				// other configured controllers (must stay silent)
 				for j := 0; j < 3; j++ {
 					if j != k && r.Chance(0.7) {
